@@ -214,8 +214,9 @@ PROPS["C18"] = {
         rapid("racing-writers", "webserver", "TestVerif_C18_RacingWriters", 60, 500),
         rapid("parked-writers", "webserver", "TestVerif_C18_ParkedWriters", 300, 3000),
         crash("crash-points", "group", "group", 6, 60),
+        crash("fault-points", "group", "group", 6, 48, mode="fault"),
     ],
-    "technique": "property-based testing (rapid): header grammar vs reference, API sequences with a string-based tag oracle, racing writers + concurrent readers, writers parked between precondition check and body (Expect: 100-continue) while others write, crash-point enumeration with strace fault injection",
+    "technique": "property-based testing (rapid): header grammar vs reference, API sequences with a string-based tag oracle, racing writers + concurrent readers, writers parked between precondition check and body (Expect: 100-continue) while others write, crash-point and fault-point enumeration with strace fault injection",
     "assumptions": ["process crashes at syscall boundaries only (no power-loss model)", "successive versions differ in size (bodies of distinct sizes); equal-size-equal-mtime versions are counted, not judged"],
 }
 
